@@ -60,6 +60,10 @@ let run (st : stream) (b : Buffer.t) : unit =
          let dummies = !s.s_dummy_ids in
          let all = real @ dummies in
          let pick l k = if l = [] then None else Some (List.nth l (k mod List.length l)) in
+         let newest l = match l with [] -> None | x :: r ->
+           Some (List.fold_left (fun a bb -> match vid_cmp a bb with Lt -> bb | _ -> a) x r) in
+         let pick3 k = if k >= 4000 then newest dummies else if k >= 3000 then newest real
+           else if k >= 2000 then pick real (k - 2000) else if k >= 1000 then pick dummies (k - 1000) else pick all k in
          let read_nodes () = let k = next_int st in repeat k (fun () -> parse_nid (next st)) in
          let segment_at v i delta =
            match tour_of !s v with
@@ -88,7 +92,7 @@ let run (st : stream) (b : Buffer.t) : unit =
                 lift (spawn_to_replace_dummy nw !s d ty) (fun (s2, v) -> OOk (s2, "new=" ^ vid v)))
            | "delete" ->
              let k = next_int st in
-             (match pick all k with
+             (match pick3 k with
               | None -> OSkip
               | Some v -> desc := vid v; lift (replace_vehicle_by_dummy nw !s v) (fun s2 -> OOk (s2, "")))
            | "addpath" ->
@@ -114,7 +118,7 @@ let run (st : stream) (b : Buffer.t) : unit =
                    lift (remove_segment nw !s (a, bb) v) (fun s2 -> OOk (s2, ""))))
            | "fit" | "override" ->
              let kp = next_int st in let i = next_int st in let dl = next_int st in let kr = next_int st in
-             (match pick all kp, pick all kr with
+             (match pick3 kp, pick3 kr with
               | Some p, Some r ->
                 (match segment_at p i dl with
                  | None -> OSkip
